@@ -304,6 +304,14 @@ func libModSet(vc *VC, callee *ssa.Function, c *ssa.CallCommon) (map[string]bool
 			set["*"] = true
 		}
 		return set, true
+	case strings.HasPrefix(k, "atomic.Load"):
+		return map[string]bool{}, true
+	case strings.HasPrefix(k, "atomic.Store"), strings.HasPrefix(k, "atomic.Add"), strings.HasPrefix(k, "atomic.Swap"), strings.HasPrefix(k, "atomic.CompareAndSwap"):
+		set := map[string]bool{}
+		if len(c.Args) > 0 {
+			vc.addrFamilies(c.Args[0], set)
+		}
+		return set, true
 	case strings.HasPrefix(k, "atomic.("):
 		set := map[string]bool{}
 		if len(c.Args) > 0 {
@@ -405,8 +413,47 @@ func (fr *Frame) libModel(callee *ssa.Function, args []Val, rt types.Type, pos t
 	if strings.HasPrefix(k, "sync.(*Mutex).") || strings.HasPrefix(k, "sync.(*RWMutex).") {
 		switch callee.Name() {
 		case "Lock", "Unlock", "RLock", "RUnlock":
-			vc.note("sync.Mutex/RWMutex Lock/Unlock: no effect on modelled state (sequential reading; data protected by the mutex is assumed not to change under the lock holder)")
+			if args[0].Loc != nil && strings.HasPrefix(args[0].Loc.Fam, "H_") && len(args[0].Loc.Idx) == 1 {
+				if li := vc.S.LockInvs[args[0].Loc.Fam[2:]]; li != nil {
+					fr.lockInvariant(li, args[0].Loc.Idx[0], callee.Name(), pos)
+					return Val{Typ: rt}, true
+				}
+			}
+			vc.note("sync.Mutex/RWMutex Lock/Unlock without a declared lock invariant: no effect on modelled state (sequential reading)")
 			return Val{Typ: rt}, true
+		}
+	}
+	// sync/atomic function-style operations on a location
+	if strings.HasPrefix(k, "atomic.Load") || strings.HasPrefix(k, "atomic.Store") || strings.HasPrefix(k, "atomic.Add") || strings.HasPrefix(k, "atomic.Swap") || strings.HasPrefix(k, "atomic.CompareAndSwap") {
+		p := args[0]
+		if pt, ok := p.Typ.Underlying().(*types.Pointer); ok {
+			if _, _, isInt := intInfo(pt.Elem()); isInt {
+				T := pt.Elem()
+				rd := func() string { return fr.loadPtr(fr.cur.heap, p, T).T() }
+				wr := func(t string) { fr.cur.heap = fr.storePtr(fr.cur.heap, p, T, Val{Typ: T, L: []string{t}}) }
+				switch {
+				case strings.HasPrefix(k, "atomic.Load"):
+					r := vc.define("atomic.load", "Int", rd())
+					vc.assume(fr.curR, vc.leafFact(r, Leaf{"", "Int", T}))
+					return one(r)
+				case strings.HasPrefix(k, "atomic.Store"):
+					wr(args[1].T())
+					return Val{Typ: rt}, true
+				case strings.HasPrefix(k, "atomic.Add"):
+					nv := vc.define("atomic.add", "Int", fr.wrapInt("(+ "+rd()+" "+args[1].T()+")", T))
+					wr(nv)
+					return one(nv)
+				case strings.HasPrefix(k, "atomic.Swap"):
+					old := vc.define("atomic.old", "Int", rd())
+					wr(args[1].T())
+					return one(old)
+				case strings.HasPrefix(k, "atomic.CompareAndSwap"):
+					old := vc.define("atomic.old", "Int", rd())
+					okc := vc.define("atomic.cas", "Bool", eq(old, args[1].T()))
+					wr(ite(okc, args[2].T(), old))
+					return one(okc)
+				}
+			}
 		}
 	}
 	// sync/atomic typed values: modelled as sequentially consistent cells
@@ -509,4 +556,71 @@ func (fr *Frame) condCall(cond string, body func()) {
 	ns.heap = vc.heapMerge([]string{cond, "true"}, []*Heap{after.heap, start.heap})
 	ns.now = vc.define("now", "Int", ite(cond, after.now, start.now))
 	fr.cur = &ns
+}
+
+// lockInvariant implements the lock-invariant rule: acquiring the mutex
+// forgets the protected fields of that object and assumes the invariant;
+// releasing it requires the invariant to hold again.
+func (fr *Frame) lockInvariant(li *LockInv, x string, op string, pos token.Pos) {
+	vc := fr.vc
+	i := strings.LastIndex(li.Key, ".")
+	tname := li.Key[:i]
+	T := vc.P.TypesByName[tname]
+	if T == nil {
+		vc.errorf("lockinv: unknown type %s", tname)
+		return
+	}
+	this := Val{Typ: types.NewPointer(T), L: []string{x}}
+	mkEnv := func() *Env {
+		e := fr.envHere("lock invariant of " + li.Key)
+		e.vars["this"] = this
+		return e
+	}
+	switch op {
+	case "Lock", "RLock":
+		// other threads may have changed the protected state while we did not hold the lock
+		for _, f := range li.Protects {
+			if gf, ok := vc.S.Ghosts[tname+"."+f]; ok {
+				fam := "H_" + tname + "." + f
+				srt := specSort(gf.GType)
+				vc.family(fam, "(Array Int "+srt+")")
+				nv := vc.fresh("lk."+f, srt)
+				fr.cur.heap = vc.heapSet(fr.cur.heap, fam, vc.define(fam, vc.famSort[fam], "(store "+vc.lookup(fr.cur.heap, fam)+" "+x+" "+nv+")"))
+				continue
+			}
+			st := T.Underlying().(*types.Struct)
+			found := false
+			for k := 0; k < st.NumFields(); k++ {
+				if st.Field(k).Name() != f {
+					continue
+				}
+				found = true
+				fa := vc.fieldAddr(T, k, x)
+				if fa.Loc == nil {
+					vc.errorf("lockprotects: field %s of %s is a nested struct/array (unsupported)", f, tname)
+					continue
+				}
+				nv := vc.freshVal("lk."+f, fa.Loc.Typ)
+				fr.typed(nv)
+				fr.cur.heap = vc.storeLoc(fr.cur.heap, fa.Loc, nv)
+			}
+			if !found {
+				vc.errorf("lockprotects: %s has no field %s", tname, f)
+			}
+		}
+		env := mkEnv()
+		for _, c := range li.Clauses {
+			vc.assume(fr.curR, env.evalAssume(c.E).T())
+		}
+	case "Unlock", "RUnlock":
+		env := mkEnv()
+		for k, c := range li.Clauses {
+			lbl := c.Label
+			if lbl == "" {
+				lbl = fmt.Sprint(k + 1)
+			}
+			g := env.evalGoal(c.E).T()
+			fr.oblige("lockinv", fmt.Sprintf("%s@L%d", lbl, fr.pos(pos).Line), g, c.Props, pos, "lock invariant of "+li.Key+": "+c.Src)
+		}
+	}
 }
